@@ -305,6 +305,7 @@ def r4_folding(ctx):
 
 
 def r3_exponents(ctx):
+    C03.r4_unit_base(ctx)           # factor of a unit = table factor ** exponent for every id form (shared with C03.R4)
     C03.r3_exponent_algebra(ctx)
     C03.r6_fraction(ctx)
 
